@@ -54,8 +54,13 @@ func (SubsScenario) GenCase(r *rand.Rand, prop string) interface{} {
 	// handlers: two literal resources and one parameterised, directly under
 	// the service name
 	kinds := r.IntN(4) // 0: resources+access, 1: only resource handlers, 2: only access, 3: both
+	mixed := chance(r, 40) // each pattern draws its handler kinds for itself
 	mk := func(pattern string, typ int) PatSpec {
 		p := PatSpec{Pattern: pattern, Type: typ}
+		kinds := kinds
+		if mixed {
+			kinds = r.IntN(4)
+		}
 		if kinds != 2 {
 			p.Get = true
 			p.Calls = []string{"set"}
@@ -71,6 +76,10 @@ func (SubsScenario) GenCase(r *rand.Rand, prop string) interface{} {
 	c.Pats = []PatSpec{mk("m.$id", 1), mk("c", 2), mk("m.$id.sub", 1)}
 	if chance(r, 40) {
 		c.Pats = append(c.Pats, mk("deep.a.b.c", 1))
+	}
+	if c.SvcName != "" && chance(r, 30) {
+		// the resource named like the service itself
+		c.Pats = append(c.Pats, mk("", 1))
 	}
 	switch r.IntN(3) {
 	case 0:
